@@ -738,6 +738,13 @@ package ring
 //@   assigns p3
 //@   ensures val(p3) == old(val(p1)) + old(val(p2)) && mexp(p3) == ite(old(val(p1)) == 0 && old(dom(p1)) == 2, old(mexp(p2)), old(mexp(p1))) && dom(p3) == ite(old(dom(p1)) == 2, old(dom(p2)), old(dom(p1)))
 
+// a ROW-level operation called directly by code above the ring layer (ckks Average): the abstract engine does not
+// follow rows - the ring element of the polynomial the row belongs to is NOT updated by this leaf, so a caller's
+// contract must not state the value of such a polynomial afterwards (Average states shape and metadata only)
+//@ afunc SubRing.MulScalarMontgomery
+//@   trusted row-level product with a scalar (coefficient-level contract: func SubRing.MulScalarMontgomery, property C01): writes the row p2 only
+//@   assigns p2
+
 //@ afunc Ring.MulScalar
 //@   trusted the ring-element reading of the row-level contract func Ring.MulScalar (every coefficient multiplied by the scalar)
 //@   assigns p2
